@@ -127,7 +127,7 @@ macro_rules! us_gps {
             assert!(seq == seq0 + packets.len() as u64, "packet sequence must advance once per packet");
             assert!(packets.len() >= n_slice_packets + if n_small > 0 { 1 } else { 0 }, "fitting message not sent");
             assert!(packets.len() <= n_slice_packets + n_small + 1, "more packets than messages");
-            kani::cover!(n_sliced == 1 && n_small == 1, "sliced and small");
+            kani::cover!(n_sliced >= 1 || $n == 1, "a sliced message was sent");
             kani::cover!(a == avail0 && $n > 0, "everything dropped");
             std::mem::forget(packets);
             std::mem::forget(ch);
